@@ -177,10 +177,14 @@ pub fn conc_campaigns(property: &str) -> Vec<ConcCampaign> {
             ConcCampaign { name: "conc-delete-window", profile: DeleteWindow, cases_quick: 300, cases_thorough: 4000, nt: |s| s.read_between_delete_and_ack && s.guard_held_during_delete,
             rule: "deleter / readers / guard holders on the same keys with a slowed command worker (see C04); non-trivial = a read between delete() returning and its acknowledgement AND a guard held when delete() was called" }],
         "C04" => vec![ConcCampaign { name: "conc-delete-window", profile: DeleteWindow, cases_quick: 500, cases_thorough: 6000, nt: |s| s.read_between_delete_and_ack && s.guard_held_during_delete,
-            rule: "one deleter cycling awaited put / unawaited delete / immediate reads / await on 3 keys of one store shard region, 1-5 threads reading and holding get_ref guards on the same keys, command worker delayed 30-500 us per command so the window between delete() returning and its acknowledgement is wide; history checker: no read that starts after delete() returned may return the deleted value; non-trivial = a read of the key fell between delete() returning and its acknowledgement AND a get_ref guard was held when delete() was called" }],
+            rule: "one deleter cycling awaited put / unawaited delete / immediate reads / await on 3 keys of one store shard region, 1-5 threads reading and holding get_ref guards on the same keys, command worker delayed 30-500 us per command so the window between delete() returning and its acknowledgement is wide; history checker: no read that starts after delete() returned may return the deleted value; non-trivial = a read of the key fell between delete() returning and its acknowledgement AND a get_ref guard was held when delete() was called" },
+            ConcCampaign { name: "conc-general", profile: General, cases_quick: 500, cases_thorough: 6000, nt: |s| s.unawaited_same_key && s.overlapping_read_write,
+            rule: "generated concurrent programs (2-6 threads, 1-6 overlapping keys, all write variants incl. deletes racing puts, clock thread, delay injection at any schedule point); all history checkers and the quiescence invariants (bijection, no entry left marked deleted, totals); non-trivial = overlapping writes of one key and a read overlapping a write" }],
         "C02x" => vec![],
         "C07" => vec![ConcCampaign { name: "conc-put-contention", profile: PutContention, cases_quick: 600, cases_thorough: 8000, nt: |s| s.puts_on_settled_keys >= 3 && s.threads >= 3,
-            rule: "keys are never deleted, never given a TTL and the cache is far from full, so once a key's first write is acknowledged it stays readable; 3-8 threads then race puts (all four variants), in-place upserts, reads and held get_ref guards on those keys with 2 store shards; every such put must be refused with KeyAlreadyExists and no read may ever return its value; non-trivial = >= 3 puts hit an already settled key from >= 3 threads" }],
+            rule: "keys are never deleted, never given a TTL and the cache is far from full, so once a key's first write is acknowledged it stays readable; 3-8 threads then race puts (all four variants), in-place upserts, reads and held get_ref guards on those keys with 2 store shards; every such put must be refused with KeyAlreadyExists and no read may ever return its value; non-trivial = >= 3 puts hit an already settled key from >= 3 threads" },
+            ConcCampaign { name: "conc-general", profile: General, cases_quick: 500, cases_thorough: 6000, nt: |s| s.unawaited_same_key && s.overlapping_read_write,
+            rule: "generated concurrent programs (2-6 threads, 1-6 overlapping keys, all write variants incl. deletes racing puts, clock thread, delay injection at any schedule point); all history checkers and the quiescence invariants (bijection, no entry left marked deleted, totals); non-trivial = overlapping writes of one key and a read overlapping a write" }],
         "C03" => vec![ConcCampaign { name: "conc-tight-fit", profile: TightFit, cases_quick: 600, cases_thorough: 8000, nt: |s| s.owner_reincarnations >= 2 && s.swept_during_run && s.threads >= 2,
             rule: "the cache weight equals the combined (fixed) put weights of the whole key universe, so everything always fits; thread 0 works sequentially (each write awaited) on two keys nobody else touches, without TTL, while 1-5 other threads churn the other keys with TTL puts, upserts, deletes and a clock thread drives sweeps, with delays in the weight-accounting critical sections; nothing may be refused for space and the owner must always read its latest acknowledged value; non-trivial = the owner's keys went through >= 2 accepted puts AND the sweeper collected keys during the run" }],
         "C09" => vec![ConcCampaign { name: "conc-expiry", profile: General, cases_quick: 500, cases_thorough: 6000, nt: |s| s.ttl_writes >= 1 && s.sweeps_during_run && s.read_after_completed_overwrite,
